@@ -299,6 +299,12 @@ def run_loop(ctx, pid):
             for o in ({"sloppy_improvement": False}, {"tol_improvement": 0.5}, {"tol_improvement": 2.0}, {"forcing_exponent": 1.0}, {"forcing_exponent": 2.0},
                       {"sloppy_improvement": False, "accelerate_mesh_steps": 1})]
     st = explore(tie, ["ans"], 1, sink, stats=st, name="det/threshold-ties", alts={"ans": ["T"], "noise": [], "fit": [], "pred": []})
+    if pid == "C03":
+        # polls that are cut short ('Skip': advanced option min_failed_poll_steps finite) still count as poll iterations:
+        # max_iter must stay a binding limit (the controller model does not describe this switch, so no TLC trace)
+        sk = [dict(_e1job(D, "det", {"min_failed_poll_steps": mf, "max_iter": mi, "tol_mesh": 1e-8, "max_fun_evals": 200}, seed, base=b), monitors=["C03"], no_trace=True)
+              for D in (1, 2, 3) for mf in (0, 1, 2) for mi in (3, 8) for b in ("F", "I", "S4")]
+        st = explore(sk, ["ans"], 0, sink, stats=st, name="det/poll-cut-short")
     if pid == "C13":
         # search-triggered mesh expansion (documented option): the mesh may grow outside a poll, but never beyond the cap
         sx = [dict(_e1job(D, "det", {"search_mesh_expand": e_, "tol_mesh": 2.0**-4, "max_fun_evals": 50 + 10 * D}, seed, base=b), monitors=["C13"], no_trace=True)
